@@ -166,8 +166,27 @@ fn main() {
     use std::sync::mpsc;
     use std::time::{Duration, Instant};
     std::panic::set_hook(Box::new(|_| {}));
-    let cpu_limit_ticks: u64 =
+    let mut cpu_limit_ticks: u64 =
         std::env::var("C13_CASE_TIMEOUT_MS").ok().and_then(|v| v.parse::<u64>().ok()).unwrap_or(3000) / 10;
+    // Escalation: all harness processes of one orchestrator run (same parent process) count their
+    // time-outs in one file; after 200 of them the tree is evidently broken and the CPU limit drops to
+    // 300 ms (still several times the slowest legitimate case), polled every 50 ms, so that a mutant that hangs on thousands of cases
+    // does not take hours. Never triggers on a healthy tree (it needs 200 genuine time-outs first).
+    let counter_path = {
+        let ppid = std::os::unix::process::parent_id();
+        let start = std::fs::read_to_string(format!("/proc/{ppid}/stat"))
+            .ok()
+            .and_then(|s| s.rsplit_once(')').map(|x| x.1.to_string()))
+            .and_then(|r| r.split_whitespace().nth(19).map(str::to_string))
+            .unwrap_or_default();
+        format!("/tmp/vh_c13_watchdog_{ppid}_{start}")
+    };
+    let timeouts_so_far = |p: &str| std::fs::metadata(p).map(|m| m.len()).unwrap_or(0);
+    let mut poll = Duration::from_millis(250);
+    if timeouts_so_far(&counter_path) >= 200 {
+        cpu_limit_ticks = cpu_limit_ticks.min(30);
+        poll = Duration::from_millis(50);
+    }
     let (tx_case, rx_case) = mpsc::channel::<String>();
     let (tx_res, rx_res) = mpsc::channel::<String>();
     let (tx_tid, rx_tid) = mpsc::channel::<String>();
@@ -201,7 +220,7 @@ fn main() {
         let started = Instant::now();
         let mut base_ticks: Option<u64> = None;
         let res = loop {
-            match rx_res.recv_timeout(Duration::from_millis(250)) {
+            match rx_res.recv_timeout(poll) {
                 Ok(s) => break Some(s),
                 Err(mpsc::RecvTimeoutError::Disconnected) => break None,
                 Err(mpsc::RecvTimeoutError::Timeout) => {
@@ -224,6 +243,9 @@ fn main() {
             None => {
                 // non-terminating (or absurdly slow) case
                 out.flush().unwrap();
+                if let Ok(mut f) = std::fs::OpenOptions::new().create(true).append(true).open(&counter_path) {
+                    let _ = f.write_all(b"x");
+                }
                 std::process::exit(3);
             }
         }
